@@ -13,7 +13,7 @@ _BoundXYZ_1 = TypeVar("_BoundXYZ_1", bound=_XYZ)
 _BoundXYZ_2 = TypeVar("_BoundXYZ_2", bound=_XYZ)
 
 #: Maximum distance used to bound calculations of smallest distance
-MAX_DISTANCE = 1e6
+MAX_DISTANCE = float("inf")
 
 
 def squared_distance(atom1: _XYZ, atom2: _XYZ) -> float:
